@@ -21,9 +21,9 @@ Lemma strip_doc_sep cfg : strip_sep (@doc_sep R cfg) = [].
 Proof. unfold doc_sep. destruct (print_seps cfg); reflexivity. Qed.
 
 (* results of the document the printer state already points at: no separator, state unchanged *)
-Lemma loop_same cfg b fi cur : forall rs st j,
+Lemma loop_same cfg fi cur : forall rs st j,
   prev_doc st = cur -> prev_file st = fi -> Forall (att fi cur) rs ->
-  print_loop pfail cfg b st j rs = (st, fst (chunk pfail cfg j rs), snd (chunk pfail cfg j rs)).
+  print_loop pfail cfg st j rs = (st, fst (chunk pfail cfg j rs), snd (chunk pfail cfg j rs)).
 Proof.
   induction rs as [|r rs IH]; intros st j Hd Hf Ha; cbn [print_loop chunk fst snd].
   - reflexivity.
@@ -31,30 +31,28 @@ Proof.
     destruct (pfail r); [reflexivity|].
     unfold print_one, need_sep. rewrite Hrd, Hrf.
     rewrite !N.eqb_refl. cbn [negb orb andb].
-    assert (Hst : mkPs (first_time st) (prev_doc st) (if b then prev_file st else prev_file st) = st)
-      by (destruct st, b; reflexivity).
+    assert (Hst : mkPs (first_time st) (prev_doc st) (prev_file st) = st)
+      by (destruct st; reflexivity).
     rewrite Hst. rewrite (IH st (j + 1) eq_refl eq_refl Ha').
     destruct (chunk pfail cfg (j + 1) rs) as [e s]. reflexivity.
 Qed.
 
 (* the separator rule for the results of one document, all reporting its position *)
-Lemma print_results_att cfg b fi cur st r0 rs :
+Lemma print_results_att cfg fi cur st r0 rs :
   Forall (att fi cur) (r0 :: rs) ->
   (first_time st = false -> prev_doc st <> cur \/ prev_file st <> fi) ->
-  (b = true \/ rs = [] \/ first_time st = true) ->
   pfail r0 = false ->
-  print_results pfail cfg b st (r0 :: rs) =
-    (mkPs false cur (if b then fi else if first_time st then fi else prev_file st),
+  print_results pfail cfg st (r0 :: rs) =
+    (mkPs false cur fi,
      (if negb (first_time st) && negb (starts_with_sep (r_lead r0)) then doc_sep cfg else [])
        ++ fst (chunk pfail cfg 0 (r0 :: rs)),
      snd (chunk pfail cfg 0 (r0 :: rs))).
 Proof.
-  intros Ha Hdiff Hrest Hpf.
+  intros Ha Hdiff Hpf.
   inversion Ha as [|? ? [Hrd Hrf] Ha']; subst.
   unfold print_results. destruct (first_time st) eqn:Hft.
-  - (* first time: the state is set to this document *)
-    rewrite (loop_same cfg b (r_file r0) (r_doc r0) (r0 :: rs) (mkPs false (r_doc r0) (r_file r0)) 0 eq_refl eq_refl Ha).
-    cbn [negb andb app]. destruct b; reflexivity.
+  - rewrite (loop_same cfg (r_file r0) (r_doc r0) (r0 :: rs) (mkPs false (r_doc r0) (r_file r0)) 0 eq_refl eq_refl Ha).
+    cbn [negb andb app]. reflexivity.
   - cbn [print_loop]. rewrite Hpf.
     unfold print_one. cbn [chunk fst snd]. rewrite Hpf.
     assert (Hneed : need_sep st r0 = negb (starts_with_sep (r_lead r0))).
@@ -62,55 +60,52 @@ Proof.
       - apply N.eqb_neq in H. rewrite H. reflexivity.
       - apply N.eqb_neq in H. rewrite H. rewrite orb_true_r. reflexivity. }
     rewrite Hneed. cbn [negb andb]. rewrite Hft.
-    destruct Hrest as [Hb|[Hnil|Hc]]; [| |discriminate].
-    + subst b.
-      rewrite (loop_same cfg true (r_file r0) (r_doc r0) rs (mkPs false (r_doc r0) (r_file r0)) (0 + 1) eq_refl eq_refl Ha').
-      destruct (chunk pfail cfg (0 + 1) rs) as [e s]. cbn [fst snd].
-      rewrite <- app_assoc. reflexivity.
-    + subst rs. cbn [print_loop chunk fst snd]. rewrite !app_nil_r. destruct b; reflexivity.
+    rewrite (loop_same cfg (r_file r0) (r_doc r0) rs (mkPs false (r_doc r0) (r_file r0)) (0 + 1) eq_refl eq_refl Ha').
+    destruct (chunk pfail cfg (0 + 1) rs) as [e s]. cbn [fst snd].
+    rewrite <- app_assoc. reflexivity.
 Qed.
 
-(* whatever the state and the variant, the printer contributes only separators *)
-Lemma loop_strip cfg b : forall rs st j,
-  strip_sep (snd (fst (print_loop pfail cfg b st j rs))) = strip_sep (fst (chunk pfail cfg j rs))
-  /\ snd (print_loop pfail cfg b st j rs) = snd (chunk pfail cfg j rs).
+(* whatever the state, the printer contributes only separators *)
+Lemma loop_strip cfg : forall rs st j,
+  strip_sep (snd (fst (print_loop pfail cfg st j rs))) = strip_sep (fst (chunk pfail cfg j rs))
+  /\ snd (print_loop pfail cfg st j rs) = snd (chunk pfail cfg j rs).
 Proof.
   induction rs as [|r rs IH]; intros st j; cbn [print_loop chunk fst snd].
   - split; reflexivity.
   - destruct (pfail r); [split; reflexivity|].
     unfold print_one.
-    specialize (IH (mkPs (first_time st) (r_doc r) (if b then r_file r else prev_file st)) (j + 1)).
-    destruct (print_loop pfail cfg b _ (j + 1) rs) as [[st2 e2] s2].
+    specialize (IH (mkPs (first_time st) (r_doc r) (r_file r)) (j + 1)).
+    destruct (print_loop pfail cfg _ (j + 1) rs) as [[st2 e2] s2].
     destruct (chunk pfail cfg (j + 1) rs) as [e s]. cbn [fst snd] in *.
     destruct IH as [IH1 IH2]. split; [|exact IH2].
     rewrite !strip_sep_app, IH1.
     destruct (need_sep st r); [rewrite strip_doc_sep|]; reflexivity.
 Qed.
 
-Lemma print_results_strip cfg b st rs :
-  strip_sep (snd (fst (print_results pfail cfg b st rs))) = strip_sep (fst (chunk pfail cfg 0 rs))
-  /\ snd (print_results pfail cfg b st rs) = snd (chunk pfail cfg 0 rs).
+Lemma print_results_strip cfg st rs :
+  strip_sep (snd (fst (print_results pfail cfg st rs))) = strip_sep (fst (chunk pfail cfg 0 rs))
+  /\ snd (print_results pfail cfg st rs) = snd (chunk pfail cfg 0 rs).
 Proof.
   unfold print_results. destruct rs as [|r0 rs]; [split; reflexivity|].
   apply loop_strip.
 Qed.
 
-Lemma print_results_nil cfg b st : print_results pfail cfg b st [] = (st, [], Done).
+Lemma print_results_nil cfg st : print_results pfail cfg st [] = (st, [], Done).
 Proof. reflexivity. Qed.
 
 (* first_time after a successful call *)
-Lemma loop_first cfg b : forall rs st j,
-  first_time (fst (fst (print_loop pfail cfg b st j rs))) = first_time st.
+Lemma loop_first cfg : forall rs st j,
+  first_time (fst (fst (print_loop pfail cfg st j rs))) = first_time st.
 Proof.
   induction rs as [|r rs IH]; intros st j; cbn [print_loop fst snd]; [reflexivity|].
   destruct (pfail r); [reflexivity|].
   unfold print_one.
-  specialize (IH (mkPs (first_time st) (r_doc r) (if b then r_file r else prev_file st)) (j + 1)).
-  destruct (print_loop pfail cfg b _ (j + 1) rs) as [[st2 e2] s2]. cbn [fst snd] in *. exact IH.
+  specialize (IH (mkPs (first_time st) (r_doc r) (r_file r)) (j + 1)).
+  destruct (print_loop pfail cfg _ (j + 1) rs) as [[st2 e2] s2]. cbn [fst snd] in *. exact IH.
 Qed.
 
-Lemma print_results_first cfg b st rs :
-  first_time (fst (fst (print_results pfail cfg b st rs))) = first_time st && is_nil rs.
+Lemma print_results_first cfg st rs :
+  first_time (fst (fst (print_results pfail cfg st rs))) = first_time st && is_nil rs.
 Proof.
   unfold print_results. destruct rs as [|r0 rs]; cbn [is_nil fst].
   - rewrite andb_true_r. reflexivity.
@@ -219,10 +214,14 @@ Variables P R T : Type.
 Variable blank : P.
 Variable absorb : list litem -> P -> P.
 Variable pfail : res R -> bool.
+Variable parentless : res R -> bool.
 Variable ev : T -> list (sdoc P) -> option (list (res R)) * T.
 Variable t0 : T.
 
-Definition fresh (sd : sdoc P) : option (list (res R)) := fst (ev t0 [sd]).
+(* the results of the freshly parsed expression on one stamped document, as the
+   stream evaluator hands them to the printer *)
+Definition fresh (sd : sdoc P) : option (list (res R)) :=
+  option_map (List.map (stamp parentless (s_file sd) (s_doc sd))) (fst (ev t0 [sd])).
 
 (* the carried expression tree: whatever the handlers write into it is
    never visible in a later result *)
@@ -239,7 +238,6 @@ Proof. induction ds as [|d ds IH]; intros k; cbn [number_docs length]; [reflexiv
 
 Section Chain.
 Variable cfg : pcfg.
-Variable b : bool.
 Variable phi : list (event R) -> list (event R).
 Hypothesis phi_app : forall x y, phi (x ++ y) = phi x ++ phi y.
 Variable Q : pstate -> N -> N -> Prop.
@@ -247,9 +245,9 @@ Hypothesis Q_doc : forall ps fi cur, Q ps fi cur -> Q ps fi (cur + 1).
 Hypothesis Q_file : forall ps fi cur, Q ps fi cur -> Q ps (fi + 1) 0.
 Hypothesis Hprint : forall ps fi cur name dl db rs,
   Q ps fi cur -> fresh (mkSdoc fi cur name false dl db) = Some rs ->
-  phi (snd (fst (print_results pfail cfg b ps rs))) = phi (jev (join_sep pfail cfg (negb (first_time ps)) [Some rs]))
-  /\ snd (print_results pfail cfg b ps rs) = jst (join_sep pfail cfg (negb (first_time ps)) [Some rs])
-  /\ (snd (print_results pfail cfg b ps rs) = Done -> Q (fst (fst (print_results pfail cfg b ps rs))) fi (cur + 1)).
+  phi (snd (fst (print_results pfail cfg ps rs))) = phi (jev (join_sep pfail cfg (negb (first_time ps)) [Some rs]))
+  /\ snd (print_results pfail cfg ps rs) = jst (join_sep pfail cfg (negb (first_time ps)) [Some rs])
+  /\ (snd (print_results pfail cfg ps rs) = Done -> Q (fst (fst (print_results pfail cfg ps rs))) fi (cur + 1)).
 
 Lemma phi_nil : phi [] = [].
 Proof.
@@ -260,7 +258,7 @@ Qed.
 
 Lemma eval_docs_gen name fi : forall ds cur ps t n ps' t' bs s,
   Q ps fi cur -> TInv t ->
-  eval_docs pfail ev cfg b name fi cur ds ps t = (n, ps', t', bs, s) ->
+  eval_docs pfail parentless ev cfg name fi cur ds ps t = (n, ps', t', bs, s) ->
   let j := join_sep pfail cfg (negb (first_time ps)) (List.map fresh (number_docs fi cur name ds)) in
   phi (flat bs) = phi (jev j) /\ s = jst j /\ TInv t'
   /\ (s = Done -> negb (first_time ps') = jbf j /\ Q ps' fi n /\ n = cur + N.of_nat (length ds)
@@ -274,15 +272,17 @@ Proof.
     set (sd := mkSdoc fi cur name false (d_lead d) (d_body d)) in *.
     pose proof (tinv_res t [sd] Ht) as Hres. pose proof (tinv_step t [sd] Ht) as Hstep.
     destruct (ev t [sd]) as [o t1] eqn:Eev. cbn [fst snd] in Hres, Hstep.
-    change (fst (ev t0 [sd])) with (fresh sd) in Hres.
-    rewrite (join_sep_cons R pfail cfg (fresh sd)). rewrite <- Hres.
-    destruct o as [rs|].
-    + destruct (Hprint ps fi cur name (d_lead d) (d_body d) rs HQ (eq_sym Hres)) as (Hp1 & Hp2 & Hp3).
-      pose proof (print_results_first R pfail cfg b ps rs) as Hfirst.
-      destruct (print_results pfail cfg b ps rs) as [[ps1 es] s1] eqn:Epr. cbn [fst snd] in *.
+    assert (Hf : fresh sd = option_map (List.map (stamp parentless fi cur)) o)
+      by (unfold fresh; rewrite <- Hres; reflexivity).
+    rewrite (join_sep_cons R pfail cfg (fresh sd)). rewrite Hf.
+    destruct o as [rs0|]; cbn [option_map] in *.
+    + set (rs := List.map (stamp parentless fi cur) rs0) in *.
+      destruct (Hprint ps fi cur name (d_lead d) (d_body d) rs HQ Hf) as (Hp1 & Hp2 & Hp3).
+      pose proof (print_results_first R pfail cfg ps rs) as Hfirst.
+      destruct (print_results pfail cfg ps rs) as [[ps1 es] s1] eqn:Epr. cbn [fst snd] in *.
       destruct s1.
       * (* printed; go on *)
-        destruct (eval_docs pfail ev cfg b name fi (cur + 1) ds ps1 t1) as [[[[n2 ps2] t2] bs2] s2] eqn:Erec.
+        destruct (eval_docs pfail parentless ev cfg name fi (cur + 1) ds ps1 t1) as [[[[n2 ps2] t2] bs2] s2] eqn:Erec.
         injection E as <- <- <- <- <-.
         specialize (IH (cur + 1) ps1 t1 n2 ps2 t2 bs2 s2 (Hp3 eq_refl) Hstep Erec).
         cbn zeta in IH. destruct IH as (I1 & I2 & I3 & I4 & I5).
@@ -311,7 +311,7 @@ Qed.
 (* relation between the driver state and the specification's bookkeeping *)
 Lemma eval_files_gen : forall fs st st' bs s,
   Q (pr st) (file_index st) 0 -> TInv (tree st) ->
-  eval_files blank absorb pfail ev cfg b st fs = (st', bs, s) ->
+  eval_files blank absorb pfail parentless ev cfg st fs = (st', bs, s) ->
   let x := spec_files blank pfail fresh cfg (negb (first_time (pr st))) (file_index st) fs in
   phi (flat bs) = phi (fst (fst (fst x))) /\ s = snd (fst x)
   /\ (s = Done -> negb (first_time (pr st')) = snd (fst (fst x)) /\ total st' = total st + snd x
@@ -324,7 +324,7 @@ Proof.
   - cbn [eval_files] in E. subst x. cbn [spec_files number_files].
     unfold eval_file in E. rewrite decode_pre in E.
     set (ds := decode blank (fun _ b0 => b0) true fl) in *.
-    destruct (eval_docs pfail ev cfg b (f_name fl) (file_index st) 0 ds (pr st) (tree st))
+    destruct (eval_docs pfail parentless ev cfg (f_name fl) (file_index st) 0 ds (pr st) (tree st))
       as [[[[n ps1] t1] bs1] s1] eqn:Edocs.
     destruct (eval_docs_gen (f_name fl) (file_index st) ds 0 (pr st) (tree st) n ps1 t1 bs1 s1 HQ Ht Edocs)
       as (D1 & D2 & D3 & D4 & D5).
@@ -335,7 +335,7 @@ Proof.
     + destruct (D4 eq_refl) as (F1 & F2 & F3 & F4).
       destruct (f_bad fl).
       * injection E as <- <- <-. cbn [fst snd]. repeat split; try assumption; discriminate.
-      * destruct (eval_files blank absorb pfail ev cfg b (mkSs (file_index st + 1) ps1 t1 (total st + n)) fs)
+      * destruct (eval_files blank absorb pfail parentless ev cfg (mkSs (file_index st + 1) ps1 t1 (total st + n)) fs)
           as [[st2 bs2] s2] eqn:Erec.
         injection E as <- <- <-.
         specialize (IH (mkSs (file_index st + 1) ps1 t1 (total st + n)) st2 bs2 s2 (Q_file _ _ _ F2) D3 Erec). cbn zeta in IH. cbn [pr file_index tree total] in IH.
@@ -361,11 +361,11 @@ Qed.
 Hypothesis Q0 : Q ps0 0 0.
 
 Lemma run_seq_gen fs :
-  phi (fst (run_seq blank absorb pfail ev t0 cfg b fs)) = phi (fst (spec_run blank pfail fresh cfg fs))
-  /\ snd (run_seq blank absorb pfail ev t0 cfg b fs) = snd (spec_run blank pfail fresh cfg fs).
+  phi (fst (run_seq blank absorb pfail parentless ev t0 cfg fs)) = phi (fst (spec_run blank pfail fresh cfg fs))
+  /\ snd (run_seq blank absorb pfail parentless ev t0 cfg fs) = snd (spec_run blank pfail fresh cfg fs).
 Proof.
   unfold run_seq, run_seq_blocks, spec_run.
-  destruct (eval_files blank absorb pfail ev cfg b (mkSs 0 ps0 t0 0) fs) as [[st bs] s] eqn:E.
+  destruct (eval_files blank absorb pfail parentless ev cfg (mkSs 0 ps0 t0 0) fs) as [[st bs] s] eqn:E.
   destruct (eval_files_gen fs (mkSs 0 ps0 t0 0) st bs s Q0 tinv0 E) as (G1 & G2 & G3).
   cbn [pr file_index first_time ps0 negb] in G1, G2, G3.
   destruct (spec_files blank pfail fresh cfg false 0 fs) as [[[e bf] sj] n] eqn:Es. cbn [fst snd] in *.
@@ -373,12 +373,15 @@ Proof.
   - destruct (G3 eq_refl) as (H1 & H2 & H3 & _). cbn [total] in H2. rewrite H2. rewrite N.add_0_l.
     destruct (n =? 0) eqn:En.
     + apply N.eqb_eq in En. specialize (H3 En). cbn [pr] in H3.
-      unfold eval_new. change (fst (ev t0 [null_sdoc blank])) with (fresh (null_sdoc blank)).
-      rewrite <- H1, H3. cbn [first_time ps0 negb].
-      destruct (fresh (null_sdoc blank)) as [rs|] eqn:Ef.
-      * destruct (Hprint ps0 0 0 [] [] blank rs Q0 Ef) as (Hp1 & Hp2 & _).
+      unfold eval_new.
+      assert (Hf : fresh (null_sdoc blank) = option_map (List.map (stamp parentless 0 0)) (fst (ev t0 [null_sdoc blank])))
+        by reflexivity.
+      rewrite <- H1, H3. cbn [first_time ps0 negb]. rewrite Hf.
+      destruct (fst (ev t0 [null_sdoc blank])) as [rs0|]; cbn [option_map] in *.
+      * set (rs := List.map (stamp parentless 0 0) rs0) in *.
+        destruct (Hprint ps0 0 0 [] [] blank rs Q0 Hf) as (Hp1 & Hp2 & _).
         cbn [first_time ps0 negb] in Hp1, Hp2.
-        destruct (print_results pfail cfg b ps0 rs) as [[ps1 es] s1]. cbn [fst snd] in *.
+        destruct (print_results pfail cfg ps0 rs) as [[ps1 es] s1]. cbn [fst snd] in *.
         destruct (join_sep pfail cfg false [Some rs]) as [[e2 b2] s2]. unfold jev, jst in *. cbn [fst snd] in *.
         split; [|exact Hp2].
         unfold flat. rewrite flat_map_app. cbn [flat_map b_events]. rewrite app_nil_r. fold (flat bs).
@@ -391,13 +394,13 @@ Qed.
 End Chain.
 
 (* ---------- instance 1: up to the printer's own separators, no hypothesis on the results ---------- *)
-Lemma run_seq_content cfg b fs :
-  strip_sep (fst (run_seq blank absorb pfail ev t0 cfg b fs)) = strip_sep (fst (spec_run blank pfail fresh cfg fs))
-  /\ snd (run_seq blank absorb pfail ev t0 cfg b fs) = snd (spec_run blank pfail fresh cfg fs).
+Lemma run_seq_content cfg fs :
+  strip_sep (fst (run_seq blank absorb pfail parentless ev t0 cfg fs)) = strip_sep (fst (spec_run blank pfail fresh cfg fs))
+  /\ snd (run_seq blank absorb pfail parentless ev t0 cfg fs) = snd (spec_run blank pfail fresh cfg fs).
 Proof.
-  apply (run_seq_gen cfg b (@strip_sep R) (strip_sep_app R) (fun _ _ _ => True)); try (intros; exact I).
+  apply (run_seq_gen cfg (@strip_sep R) (strip_sep_app R) (fun _ _ _ => True)); try (intros; exact I).
   intros ps fi cur name dl db rs _ _.
-  destruct (print_results_strip R pfail cfg b ps rs) as [H1 H2].
+  destruct (print_results_strip R pfail cfg ps rs) as [H1 H2].
   destruct (join_one_strip R pfail cfg (negb (first_time ps)) rs) as [J1 J2].
   repeat split.
   - rewrite H1, J1. reflexivity.
@@ -405,59 +408,56 @@ Proof.
 Qed.
 
 (* ---------- instance 2: exact output, for results that report their document's position ---------- *)
+(* (after the evaluator's stamping: i.e. every result that keeps a Parent has the document as its root) *)
 Definition attached : Prop :=
   forall sd rs, fresh sd = Some rs -> Forall (att (s_file sd) (s_doc sd)) rs.
-Definition le1 : Prop :=
-  forall sd rs, fresh sd = Some rs -> (length rs <= 1)%nat.
+
+(* in terms of the results as the expression returns them *)
+Lemma attached_of_raw :
+  (forall sd rs, fst (ev t0 [sd]) = Some rs ->
+     Forall (fun r => parentless r = true \/ att (s_file sd) (s_doc sd) r) rs) -> attached.
+Proof.
+  intros H sd rs Hf. unfold fresh in Hf.
+  destruct (fst (ev t0 [sd])) as [rs0|] eqn:E; [|discriminate]. cbn [option_map] in Hf. injection Hf as <-.
+  specialize (H sd rs0 E). clear E. induction H as [|r l Hr Hl IH]; cbn [List.map]; [constructor|]. constructor; [|exact IH].
+  unfold stamp. destruct (parentless r) eqn:Ep.
+  - split; reflexivity.
+  - destruct Hr as [Hr|Hr]; [congruence|exact Hr].
+Qed.
 
 (* printer state versus the position (fi, cur) the driver is at: the last
-   printed result came from an earlier position (lf, prev_doc); the repaired
-   printer has prev_file = lf, the printer as coded has prev_file = the file
-   of the first printed result, which is at most lf *)
-Definition InvP (b : bool) (ps : pstate) (fi cur : N) : Prop :=
+   printed result came from an earlier position *)
+Definition InvP (ps : pstate) (fi cur : N) : Prop :=
   first_time ps = true \/
-  (first_time ps = false /\
-   exists lf, (if b then prev_file ps = lf else prev_file ps <= lf) /\ (lf < fi \/ (lf = fi /\ prev_doc ps < cur))).
+  (first_time ps = false /\ (prev_file ps < fi \/ (prev_file ps = fi /\ prev_doc ps < cur))).
 
-Lemma invp_doc b ps fi cur : InvP b ps fi cur -> InvP b ps fi (cur + 1).
+Lemma invp_doc ps fi cur : InvP ps fi cur -> InvP ps fi (cur + 1).
 Proof.
-  intros [H|(H & lf & H1 & H2)]; [left; exact H|right]. split; [exact H|].
-  exists lf. split; [exact H1|]. destruct H2 as [H2|[H2 H3]]; [left; exact H2|right; split; [exact H2|lia]].
+  intros [H|(H & H2)]; [left; exact H|right]. split; [exact H|].
+  destruct H2 as [H2|[H2 H3]]; [left; exact H2|right; split; [exact H2|lia]].
 Qed.
 
-Lemma invp_file b ps fi cur : InvP b ps fi cur -> InvP b ps (fi + 1) 0.
+Lemma invp_file ps fi cur : InvP ps fi cur -> InvP ps (fi + 1) 0.
 Proof.
-  intros [H|(H & lf & H1 & H2)]; [left; exact H|right]. split; [exact H|].
-  exists lf. split; [exact H1|]. left. destruct H2 as [H2|[H2 H3]]; lia.
+  intros [H|(H & H2)]; [left; exact H|right]. split; [exact H|].
+  left. destruct H2 as [H2|[H2 H3]]; lia.
 Qed.
 
-Lemma invp_differs b ps fi cur : InvP b ps fi cur -> first_time ps = false -> prev_doc ps <> cur \/ prev_file ps <> fi.
+Lemma invp_differs ps fi cur : InvP ps fi cur -> first_time ps = false -> prev_doc ps <> cur \/ prev_file ps <> fi.
 Proof.
-  intros [H|(_ & lf & H1 & H2)] Hf; [congruence|].
+  intros [H|(_ & H2)] Hf; [congruence|].
   destruct (N.eq_dec (prev_file ps) fi) as [He|Hne]; [left|right; exact Hne].
-  destruct b.
-  - subst lf. destruct H2 as [H2|[_ H3]]; lia.
-  - destruct H2 as [H2|[_ H3]]; lia.
+  destruct H2 as [H2|[_ H3]]; lia.
 Qed.
 
-Lemma invp_after b ps fi cur :
-  InvP b ps fi cur ->
-  InvP b (mkPs false cur (if b then fi else if first_time ps then fi else prev_file ps)) fi (cur + 1).
+Lemma run_seq_exact cfg fs :
+  attached ->
+  run_seq blank absorb pfail parentless ev t0 cfg fs = spec_run blank pfail fresh cfg fs.
 Proof.
-  intros HI. right. split; [reflexivity|]. exists fi. cbn [prev_file prev_doc]. split.
-  - destruct b; [reflexivity|]. destruct (first_time ps) eqn:Hf; [lia|].
-    destruct HI as [H|(_ & lf & H1 & H2)]; [congruence|]. destruct H2 as [H2|[H2 _]]; lia.
-  - right. split; [reflexivity|lia].
-Qed.
-
-Lemma run_seq_exact cfg b fs :
-  attached -> (b = true \/ le1) ->
-  run_seq blank absorb pfail ev t0 cfg b fs = spec_run blank pfail fresh cfg fs.
-Proof.
-  intros Hatt Hb.
-  assert (G : (fun x => x) (fst (run_seq blank absorb pfail ev t0 cfg b fs)) = (fun x => x) (fst (spec_run blank pfail fresh cfg fs))
-              /\ snd (run_seq blank absorb pfail ev t0 cfg b fs) = snd (spec_run blank pfail fresh cfg fs)).
-  { apply (run_seq_gen cfg b (fun x => x) (fun x y => eq_refl) (InvP b) (invp_file b)); [|left; reflexivity].
+  intros Hatt.
+  assert (G : (fun x => x) (fst (run_seq blank absorb pfail parentless ev t0 cfg fs)) = (fun x => x) (fst (spec_run blank pfail fresh cfg fs))
+              /\ snd (run_seq blank absorb pfail parentless ev t0 cfg fs) = snd (spec_run blank pfail fresh cfg fs)).
+  { apply (run_seq_gen cfg (fun x => x) (fun x y => eq_refl) InvP invp_file); [|left; reflexivity].
     intros ps fi cur name dl db rs HQ Hf.
     pose proof (Hatt _ _ Hf) as Ha. cbn [s_file s_doc] in Ha.
     destruct rs as [|r0 rs].
@@ -466,16 +466,12 @@ Proof.
     - destruct (pfail r0) eqn:Hpf.
       + rewrite (join_one_fail R pfail cfg _ r0 rs Hpf). unfold print_results. cbn [print_loop]. rewrite Hpf.
         unfold jev, jst. cbn [fst snd]. repeat split. discriminate.
-      + assert (Hrest : b = true \/ rs = [] \/ first_time ps = true).
-        { destruct Hb as [Hb|Hl]; [left; exact Hb|right; left].
-          specialize (Hl _ _ Hf). cbn [length] in Hl. destruct rs; [reflexivity|cbn [length] in Hl; lia]. }
-        rewrite (print_results_att R pfail cfg b fi cur ps r0 rs Ha (invp_differs b ps fi cur HQ) Hrest Hpf).
+      + rewrite (print_results_att R pfail cfg fi cur ps r0 rs Ha (invp_differs ps fi cur HQ) Hpf).
         rewrite (join_one_cons R pfail cfg _ r0 rs Hpf). unfold jev, jst. cbn [fst snd].
-        repeat split. intros _. apply invp_after. exact HQ. }
+        repeat split. intros _. right. split; [reflexivity|]. cbn [prev_file prev_doc]. right. split; [reflexivity|lia]. }
   destruct G as [G1 G2]. cbn beta in G1.
-  destruct (run_seq blank absorb pfail ev t0 cfg b fs), (spec_run blank pfail fresh cfg fs). cbn [fst snd] in *. congruence.
+  destruct (run_seq blank absorb pfail parentless ev t0 cfg fs), (spec_run blank pfail fresh cfg fs). cbn [fst snd] in *. congruence.
 Qed.
-
 
 (* ---------- true positions ---------- *)
 Lemma number_docs_In fi name : forall (ds : list (doc P)) k sd,
@@ -523,22 +519,22 @@ Proof.
 Qed.
 
 (* the documents handed to the expression, in order *)
-Lemma run_seq_docs cfg b fs bs :
-  run_seq_blocks blank absorb pfail ev t0 cfg b fs = (bs, Done) ->
+Lemma run_seq_docs cfg fs bs :
+  run_seq_blocks blank absorb pfail parentless ev t0 cfg fs = (bs, Done) ->
   (spec_docs blank fs <> [] -> List.map b_doc bs = spec_docs blank fs)
   /\ (spec_docs blank fs = [] -> List.map b_doc bs = [null_sdoc blank]).
 Proof.
   unfold run_seq_blocks, spec_docs.
-  destruct (eval_files blank absorb pfail ev cfg b (mkSs 0 ps0 t0 0) fs) as [[st bs1] s] eqn:E.
+  destruct (eval_files blank absorb pfail parentless ev cfg (mkSs 0 ps0 t0 0) fs) as [[st bs1] s] eqn:E.
   assert (Hp : forall ps fi cur name dl db rs, True -> fresh (mkSdoc fi cur name false dl db) = Some rs ->
-     strip_sep (snd (fst (print_results pfail cfg b ps rs))) = strip_sep (jev (join_sep pfail cfg (negb (first_time ps)) [Some rs]))
-     /\ snd (print_results pfail cfg b ps rs) = jst (join_sep pfail cfg (negb (first_time ps)) [Some rs])
-     /\ (snd (print_results pfail cfg b ps rs) = Done -> True)).
+     strip_sep (snd (fst (print_results pfail cfg ps rs))) = strip_sep (jev (join_sep pfail cfg (negb (first_time ps)) [Some rs]))
+     /\ snd (print_results pfail cfg ps rs) = jst (join_sep pfail cfg (negb (first_time ps)) [Some rs])
+     /\ (snd (print_results pfail cfg ps rs) = Done -> True)).
   { intros ps fi cur name dl db rs _ _.
-    destruct (print_results_strip R pfail cfg b ps rs) as [H1 H2].
+    destruct (print_results_strip R pfail cfg ps rs) as [H1 H2].
     destruct (join_one_strip R pfail cfg (negb (first_time ps)) rs) as [J1 J2].
     repeat split; congruence. }
-  destruct (eval_files_gen cfg b (@strip_sep R) (strip_sep_app R) (fun _ _ _ => True) (fun _ _ _ _ => I) Hp
+  destruct (eval_files_gen cfg (@strip_sep R) (strip_sep_app R) (fun _ _ _ => True) (fun _ _ _ _ => I) Hp
               fs (mkSs 0 ps0 t0 0) st bs1 s I tinv0 E) as (_ & G2 & G3).
   cbn [file_index pr total] in G2, G3.
   pose proof (spec_files_count cfg fs (negb (first_time ps0)) 0) as Hc.
@@ -548,7 +544,7 @@ Proof.
   destruct (number_files blank 0 fs) as [|sd0 rest] eqn:En.
   - cbn [length N.of_nat N.eqb]. unfold eval_new.
     destruct (fst (ev t0 [null_sdoc blank])) as [rs|]; [|discriminate].
-    destruct (print_results pfail cfg b (pr st) rs) as [[ps1 es] s1].
+    destruct (print_results pfail cfg (pr st) (List.map (stamp parentless 0 0) rs)) as [[ps1 es] s1].
     intro H. injection H as <- ->. split; [congruence|]. intros _. rewrite map_app, Hm. reflexivity.
   - assert (Hnz : (N.of_nat (length (sd0 :: rest)) =? 0) = false) by (apply N.eqb_neq; cbn [length]; lia).
     rewrite Hnz. intro H. injection H as <-. split; [intros _; exact Hm|discriminate].
@@ -558,8 +554,8 @@ Qed.
 Definition block_ok (cfg : pcfg) (B : block P R) : Prop :=
   exists rs, fresh (b_doc B) = Some rs /\ strip_sep (b_events B) = strip_sep (fst (chunk pfail cfg 0 rs)).
 
-Lemma eval_docs_blocks cfg b name fi : forall ds cur ps t n ps' t' bs s,
-  TInv t -> eval_docs pfail ev cfg b name fi cur ds ps t = (n, ps', t', bs, s) ->
+Lemma eval_docs_blocks cfg name fi : forall ds cur ps t n ps' t' bs s,
+  TInv t -> eval_docs pfail parentless ev cfg name fi cur ds ps t = (n, ps', t', bs, s) ->
   Forall (block_ok cfg) bs /\ TInv t'.
 Proof.
   induction ds as [|d ds IH]; intros cur ps t n ps' t' bs s Ht E; cbn [eval_docs] in E.
@@ -567,33 +563,35 @@ Proof.
   - set (sd := mkSdoc fi cur name false (d_lead d) (d_body d)) in *.
     pose proof (tinv_res t [sd] Ht) as Hres. pose proof (tinv_step t [sd] Ht) as Hstep.
     destruct (ev t [sd]) as [o t1] eqn:Eev. cbn [fst snd] in Hres, Hstep.
-    change (fst (ev t0 [sd])) with (fresh sd) in Hres.
-    destruct o as [rs|].
-    + destruct (print_results_strip R pfail cfg b ps rs) as [H1 _].
-      destruct (print_results pfail cfg b ps rs) as [[ps1 es] s1]. cbn [fst snd] in H1.
-      assert (Hok : block_ok cfg (mkBlock sd es)) by (exists rs; split; [symmetry; exact Hres|exact H1]).
+    assert (Hf : fresh sd = option_map (List.map (stamp parentless fi cur)) o)
+      by (unfold fresh; rewrite <- Hres; reflexivity).
+    destruct o as [rs0|]; cbn [option_map] in Hf.
+    + set (rs := List.map (stamp parentless fi cur) rs0) in *.
+      destruct (print_results_strip R pfail cfg ps rs) as [H1 _].
+      destruct (print_results pfail cfg ps rs) as [[ps1 es] s1]. cbn [fst snd] in H1.
+      assert (Hok : block_ok cfg (mkBlock sd es)) by (exists rs; split; [exact Hf|exact H1]).
       destruct s1.
-      * destruct (eval_docs pfail ev cfg b name fi (cur + 1) ds ps1 t1) as [[[[n2 ps2] t2] bs2] s2] eqn:Erec.
+      * destruct (eval_docs pfail parentless ev cfg name fi (cur + 1) ds ps1 t1) as [[[[n2 ps2] t2] bs2] s2] eqn:Erec.
         injection E as <- <- <- <- <-.
         destruct (IH _ _ _ _ _ _ _ _ Hstep Erec) as [I1 I2]. split; [constructor; assumption|exact I2].
       * injection E as <- <- <- <- <-. split; [constructor; [exact Hok|constructor]|exact Hstep].
     + injection E as <- <- <- <- <-. split; [constructor|exact Hstep].
 Qed.
 
-Lemma eval_files_blocks cfg b : forall fs st st' bs s,
-  TInv (tree st) -> eval_files blank absorb pfail ev cfg b st fs = (st', bs, s) ->
+Lemma eval_files_blocks cfg : forall fs st st' bs s,
+  TInv (tree st) -> eval_files blank absorb pfail parentless ev cfg st fs = (st', bs, s) ->
   Forall (block_ok cfg) bs /\ TInv (tree st').
 Proof.
   induction fs as [|fl fs IH]; intros st st' bs s Ht E; cbn [eval_files] in E.
   - injection E as <- <- <-. split; [constructor|exact Ht].
   - unfold eval_file in E.
-    destruct (eval_docs pfail ev cfg b (f_name fl) (file_index st) 0 (decode blank absorb true fl) (pr st) (tree st))
+    destruct (eval_docs pfail parentless ev cfg (f_name fl) (file_index st) 0 (decode blank absorb true fl) (pr st) (tree st))
       as [[[[n ps1] t1] bs1] s1] eqn:Edocs.
-    destruct (eval_docs_blocks cfg b _ _ _ _ _ _ _ _ _ _ _ Ht Edocs) as [D1 D2].
+    destruct (eval_docs_blocks cfg _ _ _ _ _ _ _ _ _ _ _ Ht Edocs) as [D1 D2].
     destruct s1.
     + destruct (f_bad fl).
       * injection E as <- <- <-. split; assumption.
-      * destruct (eval_files blank absorb pfail ev cfg b (mkSs (file_index st + 1) ps1 t1 (total st + n)) fs)
+      * destruct (eval_files blank absorb pfail parentless ev cfg (mkSs (file_index st + 1) ps1 t1 (total st + n)) fs)
           as [[st2 bs2] s2] eqn:Erec.
         injection E as <- <- <-.
         destruct (IH (mkSs (file_index st + 1) ps1 t1 (total st + n)) st2 bs2 s2 D2 Erec) as [I1 I2].
@@ -601,33 +599,35 @@ Proof.
     + injection E as <- <- <-. split; assumption.
 Qed.
 
-Lemma run_seq_blocks_ok cfg b fs bs s :
-  run_seq_blocks blank absorb pfail ev t0 cfg b fs = (bs, s) -> Forall (block_ok cfg) bs.
+Lemma run_seq_blocks_ok cfg fs bs s :
+  run_seq_blocks blank absorb pfail parentless ev t0 cfg fs = (bs, s) -> Forall (block_ok cfg) bs.
 Proof.
   unfold run_seq_blocks.
-  destruct (eval_files blank absorb pfail ev cfg b (mkSs 0 ps0 t0 0) fs) as [[st bs1] s1] eqn:E.
-  destruct (eval_files_blocks cfg b fs (mkSs 0 ps0 t0 0) st bs1 s1 tinv0 E) as [H1 _].
+  destruct (eval_files blank absorb pfail parentless ev cfg (mkSs 0 ps0 t0 0) fs) as [[st bs1] s1] eqn:E.
+  destruct (eval_files_blocks cfg fs (mkSs 0 ps0 t0 0) st bs1 s1 tinv0 E) as [H1 _].
   destruct s1.
   - destruct (total st =? 0).
-    + unfold eval_new. destruct (fst (ev t0 [null_sdoc blank])) as [rs|] eqn:Ef.
-      * destruct (print_results_strip R pfail cfg b (pr st) rs) as [P1 _].
-        destruct (print_results pfail cfg b (pr st) rs) as [[ps1 es] s2]. cbn [fst snd] in P1.
+    + unfold eval_new. destruct (fst (ev t0 [null_sdoc blank])) as [rs0|] eqn:Ef.
+      * set (rs := List.map (stamp parentless 0 0) rs0).
+        destruct (print_results_strip R pfail cfg (pr st) rs) as [P1 _].
+        destruct (print_results pfail cfg (pr st) rs) as [[ps1 es] s2]. cbn [fst snd] in P1.
         intro H. injection H as <- <-. apply Forall_app. split; [exact H1|].
-        constructor; [|constructor]. exists rs. split; [exact Ef|exact P1].
+        constructor; [|constructor]. exists rs. split; [|exact P1].
+        unfold fresh. cbn [b_doc]. rewrite Ef. reflexivity.
       * intro H. injection H as <- <-. rewrite app_nil_r. exact H1.
     + intro H. injection H as <- <-. exact H1.
   - intro H. injection H as <- <-. exact H1.
 Qed.
 
-Lemma doc_independent cfg b1 b2 fs1 fs2 bs1 s1 bs2 s2 B1 B2 :
-  run_seq_blocks blank absorb pfail ev t0 cfg b1 fs1 = (bs1, s1) ->
-  run_seq_blocks blank absorb pfail ev t0 cfg b2 fs2 = (bs2, s2) ->
+Lemma doc_independent cfg fs1 fs2 bs1 s1 bs2 s2 B1 B2 :
+  run_seq_blocks blank absorb pfail parentless ev t0 cfg fs1 = (bs1, s1) ->
+  run_seq_blocks blank absorb pfail parentless ev t0 cfg fs2 = (bs2, s2) ->
   In B1 bs1 -> In B2 bs2 -> b_doc B1 = b_doc B2 ->
   strip_sep (b_events B1) = strip_sep (b_events B2).
 Proof.
   intros E1 E2 I1 I2 Hd.
-  pose proof (run_seq_blocks_ok cfg b1 fs1 bs1 s1 E1) as F1.
-  pose proof (run_seq_blocks_ok cfg b2 fs2 bs2 s2 E2) as F2.
+  pose proof (run_seq_blocks_ok cfg fs1 bs1 s1 E1) as F1.
+  pose proof (run_seq_blocks_ok cfg fs2 bs2 s2 E2) as F2.
   rewrite Forall_forall in F1, F2.
   destruct (F1 _ I1) as (rs1 & A1 & A2). destruct (F2 _ I2) as (rs2 & C1 & C2).
   rewrite Hd in A1. rewrite A1 in C1. injection C1 as <-. rewrite A2, C2. reflexivity.
@@ -643,31 +643,48 @@ Variables P R T : Type.
 Variable blank : P.
 Variable absorb : list litem -> P -> P.
 Variable pfail : res R -> bool.
+Variable parentless : res R -> bool.
 Variable ev : T -> list (sdoc P) -> option (list (res R)) * T.
 Variable t0 : T.
+
+(* a node made during evaluation without Parent has zero document / file index *)
+Definition parentless_zero : Prop :=
+  forall ds rs, fst (ev t0 ds) = Some rs -> Forall (fun r => parentless r = true -> r_doc r = 0 /\ r_file r = 0) rs.
+
+Lemma stamp_zero_id rs :
+  Forall (fun r => parentless r = true -> r_doc r = 0 /\ r_file r = 0) rs -> List.map (stamp parentless 0 0) rs = rs.
+Proof.
+  induction 1 as [|r l Hr Hl IH]; cbn [List.map]; [reflexivity|]. rewrite IH. f_equal.
+  unfold stamp. destruct (parentless r) eqn:Ep; [|reflexivity].
+  destruct (Hr eq_refl) as [H1 H2]. destruct r as [d f l0 v]. cbn in *. subst. reflexivity.
+Qed.
 
 Definition set_together (sd : sdoc P) : sdoc P :=
   mkSdoc (s_file sd) (s_doc sd) (s_name sd) true (s_lead sd) (s_body sd).
 
-Lemma evalall_single cfg b fl :
+Lemma evalall_single cfg fl :
+  parentless_zero ->
   f_bad fl = false ->
   (length (decode blank absorb true fl) <= 1)%nat ->
   (forall sd, fst (ev t0 [set_together sd]) = fst (ev t0 [sd])) ->
-  run_all blank absorb pfail ev t0 cfg b [fl] = run_seq blank absorb pfail ev t0 cfg b [fl].
+  run_all blank absorb pfail ev t0 cfg [fl] = run_seq blank absorb pfail parentless ev t0 cfg [fl].
 Proof.
-  intros Hbad Hlen Htog.
+  intros Hz Hbad Hlen Htog.
   unfold run_all, run_seq, run_seq_blocks. cbn [read_all eval_files]. rewrite Hbad.
   unfold eval_file. cbn [file_index pr tree total]. rewrite Hbad.
   destruct (decode blank absorb true fl) as [|d [|d2 ds]] eqn:Ed; [| |cbn [length] in Hlen; lia].
   - cbn [stamp_together app is_nil eval_docs]. cbn [total N.add N.eqb]. unfold eval_new.
-    destruct (fst (ev t0 [null_sdoc blank])) as [rs|]; [|reflexivity].
-    cbn [pr]. destruct (print_results pfail cfg b ps0 rs) as [[ps1 es] s1]. unfold flat. cbn [app flat_map b_events]. rewrite app_nil_r. reflexivity.
+    destruct (fst (ev t0 [null_sdoc blank])) as [rs|] eqn:En; [|reflexivity].
+    rewrite (stamp_zero_id rs (Hz _ _ En)).
+    cbn [pr]. destruct (print_results pfail cfg ps0 rs) as [[ps1 es] s1]. unfold flat. cbn [app flat_map b_events]. rewrite app_nil_r. reflexivity.
   - cbn [stamp_together app is_nil eval_docs].
     specialize (Htog (mkSdoc 0 0 (f_name fl) false (d_lead d) (d_body d))). unfold set_together in Htog. cbn [s_file s_doc s_name s_lead s_body] in Htog.
     rewrite Htog.
-    destruct (ev t0 [mkSdoc 0 0 (f_name fl) false (d_lead d) (d_body d)]) as [o t1]. cbn [fst].
+    pose proof (Hz [mkSdoc 0 0 (f_name fl) false (d_lead d) (d_body d)]) as Hz1.
+    destruct (ev t0 [mkSdoc 0 0 (f_name fl) false (d_lead d) (d_body d)]) as [o t1]. cbn [fst] in *.
     destruct o as [rs|]; [|reflexivity].
-    destruct (print_results pfail cfg b ps0 rs) as [[ps1 es] s1].
+    rewrite (stamp_zero_id rs (Hz1 rs eq_refl)).
+    destruct (print_results pfail cfg ps0 rs) as [[ps1 es] s1].
     destruct s1.
     + cbn [total]. replace (0 + (0 + 1) =? 0) with false by reflexivity.
       unfold flat. simpl. rewrite app_nil_r. reflexivity.
@@ -811,7 +828,7 @@ Qed.
 
 End Count.
 
-Arguments fresh {P R T}. Arguments attached {P R T}. Arguments le1 {P R T}. Arguments set_together {P}.
+Arguments fresh {P R T}. Arguments attached {P R T}. Arguments set_together {P}. Arguments parentless_zero {P R T}.
 
 (* ------------------------------------------------------------------ *)
 (* statements as used by Props/C10.v                                    *)
@@ -821,6 +838,7 @@ Variables P R T : Type.
 Variable blank : P.
 Variable absorb : list litem -> P -> P.
 Variable pfail : res R -> bool.
+Variable parentless : res R -> bool.
 Variable ev : T -> list (sdoc P) -> option (list (res R)) * T.
 Variable t0 : T.
 Variable TInv : T -> Prop.
@@ -828,40 +846,40 @@ Hypothesis tinv0 : TInv t0.
 Hypothesis tinv_step : forall t ds, TInv t -> TInv (snd (ev t ds)).
 Hypothesis tinv_res : forall t ds, TInv t -> fst (ev t ds) = fst (ev t0 ds).
 
-Lemma seq_is_concat cfg b fs :
-  attached ev t0 -> (b = true \/ le1 ev t0) ->
+Lemma seq_is_concat cfg fs :
+  attached parentless ev t0 ->
   Forall (fun fl => f_bad fl = false) fs -> spec_docs blank fs <> [] ->
-  run_seq blank absorb pfail ev t0 cfg b fs =
-    (jev (join_sep pfail cfg false (List.map (fresh ev t0) (spec_docs blank fs))),
-     jst (join_sep pfail cfg false (List.map (fresh ev t0) (spec_docs blank fs)))).
+  run_seq blank absorb pfail parentless ev t0 cfg fs =
+    (jev (join_sep pfail cfg false (List.map (fresh parentless ev t0) (spec_docs blank fs))),
+     jst (join_sep pfail cfg false (List.map (fresh parentless ev t0) (spec_docs blank fs)))).
 Proof.
-  intros Ha Hb Hg Hne.
-  rewrite (run_seq_exact P R T blank absorb pfail ev t0 TInv tinv0 tinv_step tinv_res cfg b fs Ha Hb).
+  intros Ha Hg Hne.
+  rewrite (run_seq_exact P R T blank absorb pfail parentless ev t0 TInv tinv0 tinv_step tinv_res cfg fs Ha).
   apply spec_run_flat; assumption.
 Qed.
 
-Lemma identity_count cfg b fs :
-  (forall sd, exists r, fresh ev t0 sd = Some [r] /\ pfail r = false) ->
+Lemma identity_count cfg fs :
+  (forall sd, exists r, fresh parentless ev t0 sd = Some [r] /\ pfail r = false) ->
   Forall (fun fl => f_bad fl = false) fs ->
-  count_res (fst (run_seq blank absorb pfail ev t0 cfg b fs)) = Nat.max 1 (length (spec_docs blank fs))
-  /\ snd (run_seq blank absorb pfail ev t0 cfg b fs) = Done.
+  count_res (fst (run_seq blank absorb pfail parentless ev t0 cfg fs)) = Nat.max 1 (length (spec_docs blank fs))
+  /\ snd (run_seq blank absorb pfail parentless ev t0 cfg fs) = Done.
 Proof.
   intros H1 Hg.
-  destruct (run_seq_content P R T blank absorb pfail ev t0 TInv tinv0 tinv_step tinv_res cfg b fs) as [C1 C2].
-  destruct (spec_run_count P R blank pfail (fresh ev t0) H1 cfg fs Hg) as [S1 S2].
+  destruct (run_seq_content P R T blank absorb pfail parentless ev t0 TInv tinv0 tinv_step tinv_res cfg fs) as [C1 C2].
+  destruct (spec_run_count P R blank pfail (fresh parentless ev t0) H1 cfg fs Hg) as [S1 S2].
   split; [|congruence].
   rewrite <- (count_res_strip R), C1, (count_res_strip R). exact S1.
 Qed.
 
-Lemma indices_true cfg b fs bs :
-  run_seq_blocks blank absorb pfail ev t0 cfg b fs = (bs, Done) -> spec_docs blank fs <> [] ->
+Lemma indices_true cfg fs bs :
+  run_seq_blocks blank absorb pfail parentless ev t0 cfg fs = (bs, Done) -> spec_docs blank fs <> [] ->
   List.map b_doc bs = spec_docs blank fs
   /\ forall sd, In sd (spec_docs blank fs) <->
        exists i fl k d, nth_error fs i = Some fl /\ nth_error (decode blank absorb true fl) k = Some d
          /\ sd = mkSdoc (N.of_nat i) (N.of_nat k) (f_name fl) false (d_lead d) (d_body d).
 Proof.
   intros E Hne.
-  destruct (run_seq_docs P R T blank absorb pfail ev t0 TInv tinv0 tinv_step tinv_res cfg b fs bs E) as [H1 _].
+  destruct (run_seq_docs P R T blank absorb pfail parentless ev t0 TInv tinv0 tinv_step tinv_res cfg fs bs E) as [H1 _].
   split; [exact (H1 Hne)|].
   intro sd. unfold spec_docs. rewrite number_files_In.
   split; intros (i & fl & k & d & A1 & A2 & A3); exists i, fl, k, d; (split; [exact A1|split]).
